@@ -101,7 +101,7 @@ PROPS = {
     'C02': dict(
         modules=['Resonate.Properties.C02'],
         tie_filter=r'promise(Select_|Insert|Update)|callbackInsert|shape|wiring|uniques',
-        harness=[sysdiff('sysdiff-linearizable', None, (25, 120), (600, 150), 'C02,C01,C03', ['-routed', '40', '-fail', '15', '-crash', '1', '-known', 'F5'], (200, 150)),
+        harness=[sysdiff('sysdiff-linearizable', None, (25, 120), (600, 150), 'C02,C01,C03,C07', ['-routed', '40', '-fail', '15', '-crash', '1', '-known', 'F5'], (200, 150)),
                  sysdiff('sysdiff-linearizable-focus', ['ReadPromise', 'CreatePromise', 'CreatePromiseAndTask', 'CompletePromise', 'CreateCallback', 'CreateSubscription', 'ClaimTask', 'CompleteTask', 'AcquireLock', 'ReleaseLock'],
                          (20, 100), (500, 120), 'C02,C01', ['-focus', '-smallcfg', '-fail', '10', '-crash', '1', '-known', 'F5'], (200, 120))],
         rule=SYS_RULE + '; the linearizability checker runs inside the model driver on the history of the run: database snapshots after EVERY transaction (also inside a batch), the tick times, the router answer of each request; '
